@@ -3,7 +3,7 @@ HD = "harness/C10_dict_read.c"
 H17 = "harness/C17_s3file.c"
 NB17 = ["mmio_file_read", "mmio_file_unmap", "mmio_file_ptr", "mmio_file_size", "strncmp", "strlen", "ssw_memcpy", "ssw_memmove"]
 GROUPS = [
-    dict(name="dict_read_text_4", harness=HD, entry="r_dict_read", defines=["DLEN=4"], allow_no_body=["*"], unwind=6, unwind_is_obligation=True,
+    dict(name="dict_read_text_4", harness=HD, entry="r_dict_read", defines=["DLEN=4"], allow_no_body=["*"], unwind=6, backends=[["--sat-solver", "cadical"]], unwind_is_obligation=True,
          replay={"name": "dict_read_replay", "harness": HD, "entry": "r_dict_read", "defines": ["DLEN=4"], "native_replay": True, "canary": False, "allow_no_body": ["*"], "unwind": 6,
                  "native_sources": "ALL", "native_exclude": ["dict.c", "s3file.c", "strfuncs.c", "bin_mdef.c"]},
          bounded="dictionary texts of <= 4 symbolic bytes (all line/word/comment shapes that fit), real tokenisers; non-termination within the bound is a violation"),
